@@ -181,6 +181,14 @@ def parse_kv(line):
     d['cmd'] = toks[0] if toks else ''
     i = 1
     while i < len(toks) and toks[i] != 'obj':
+        if toks[i] == 'dec' and i > 1:
+            # `reenc`: the object as decoded, before the encoder's pre-processing
+            j = i + 1
+            while j < len(toks) and toks[j] != 'obj':
+                j += 1
+            d['dec'] = toks[i + 1:j]
+            i = j
+            continue
         if '=' in toks[i]:
             k, v = toks[i].split('=', 1)
             d[k] = v
@@ -282,7 +290,9 @@ def same_modulo_indet(a, b, c):
     da, db = parse_kv(a), parse_kv(b)
     oa = [x for x in da.pop('obj', []) if x.split('=')[0] not in ind]
     ob = [x for x in db.pop('obj', []) if x.split('=')[0] not in ind]
-    return da == db and oa == ob
+    ea = [x for x in da.pop('dec', []) if x.split('=')[0] not in ind]
+    eb = [x for x in db.pop('dec', []) if x.split('=')[0] not in ind]
+    return da == db and oa == ob and ea == eb
 
 
 def compare_codec(res, reqs, mod, imp, summary):
@@ -674,13 +684,14 @@ def check_C02(res):
     fac = summary.get('factory', {})
     exe = pipe.harness('codec_harness', ['codec_harness.cpp'])
     drv = lib.driver_exe()
-    if exe is None or not os.path.exists(drv) or not images:
+    if exe is None or not images:
         return finish_codec(res)
     rng = random.Random(lib.seed() * 104729 + 5)
     reqs = []
     meta = []
     npos = 12 if res.tier == 'quick' else 10 ** 9
-    vals = [0x00, 0xff, 0x80] if res.tier == 'quick' else [0x00, 0x01, 0x7f, 0x80, 0xff, 0x55, 0xaa]
+    vals = [0x00, 0x01, 0x7f, 0x80, 0xff] if res.tier == 'quick' else [0x00, 0x01, 0x7f, 0x80, 0xff, 0x55, 0xaa]
+    first_of_class = set()
     for name, typ, img in images:
         cn = fac.get(str(typ))
         if cn is None or cn not in cls:
@@ -692,6 +703,11 @@ def check_C02(res):
         positions = list(range(16, min(osz, len(img))))
         if len(positions) > npos:
             positions = sorted(rng.sample(positions, npos))
+            if cn not in first_of_class:
+                # one image per class: every byte of the object header behind the base header and of the first fields of the body
+                # (flags, selectors, lengths, offsets live there)
+                first_of_class.add(cn)
+                positions = sorted(set(positions) | set(range(16, min(80, osz, len(img)))))
         for ppos in positions:
             vs = list(vals)
             if res.tier == 'thorough' and rng.random() < 0.05:
@@ -718,11 +734,14 @@ def check_C02(res):
                 if d != img:
                     reqs.append('reenc %s %s' % (cn, d.hex()))
                     meta.append((name, cn, d, (ppos, v, w)))
-    mod, rc, err = lib.session(drv, reqs)
-    if len(mod) != len(reqs):
-        res.oblige('D:driver-session', False, '%d answers for %d requests %s' % (len(mod), len(reqs), err[-300:]))
-        return finish_codec(res)
-    sent = [('!' + r) if ' halt=oob' in a else r for r, a in zip(reqs, mod)]
+    if lib.model_ok():
+        mod, rc, err = lib.session(drv, reqs)
+        if len(mod) != len(reqs):
+            res.oblige('D:driver-session', False, '%d answers for %d requests %s' % (len(mod), len(reqs), err[-300:]))
+            return finish_codec(res)
+    else:
+        mod = [None] * len(reqs)       # no executable model of this tree: the re-encode oracle runs on the implementation alone
+    sent = [('!' + r) if (a is not None and ' halt=oob' in a) else r for r, a in zip(reqs, mod)]
     imp, rc, err = lib.session(exe, sent, timeout=3000)
     if len(imp) != len(reqs):
         res.oblige('D:harness-session', False, '%d answers for %d requests; stderr %s' % (len(imp), len(reqs), err[-800:]))
@@ -735,7 +754,7 @@ def check_C02(res):
     fails = {}
     for r, a, b, (name, cn, img, mut) in zip(reqs, mod, imp, meta):
         res.corr['requests'] += 1
-        if cls[cn].get('modelled') is not False and not same_modulo_indet(a, b, cls[cn]):
+        if a is not None and cls[cn].get('modelled') is not False and not same_modulo_indet(a, b, cls[cn]):
             if ' halt=oob' in a and b.startswith('crash'):
                 continue
             if ' halt=badalloc' in a and ('badalloc' in b or b.startswith('crash')):
@@ -772,16 +791,25 @@ def check_C02(res):
             if d.get('pos') != ba.get('pos') or bytes.fromhex(d['out'])[8:12] != bytes.fromhex(ba['out'])[8:12]:
                 continue
             sf = set(str(x) for x in cls[cn].get('shapeFields', []))
-            oa = dict(x.split('=') for x in ba.get('obj', []))
-            ob = dict(x.split('=') for x in d.get('obj', []))
+            oa = dict(x.split('=') for x in (ba.get('dec') or ba.get('obj', [])))
+            ob = dict(x.split('=') for x in (d.get('dec') or d.get('obj', [])))
             if any(oa.get(k) != ob.get(k) for k in sf):
+                # a selector / length / offset field changed: the rest of the image may now be read as another variant (what was a
+                # field is filler), so the image as a whole is outside the property.  The overwritten bytes themselves are not:
+                # the decoder represented the new value (the dumps differ), so the encoder has to put it back.
+                o2 = bytes.fromhex(d['out'])
+                off, wd = mut[0], (mut[2] if len(mut) > 2 else 1)
+                mm = set(i for a_, e_ in m for i in range(a_, e_))
+                if oa != ob and len(o2) >= off + wd and len(img) >= off + wd and not any(i in mm for i in range(off, off + wd)) \
+                        and wd == 1 and o2[off:off + wd] != img[off:off + wd]:
+                    fails.setdefault((cn, 'derived-not-reproduced'), (name, 'the overwritten selector/length byte at offset %d is represented in the decoded object but comes back as %s, not as %s' % (off, o2[off:off + wd].hex(), img[off:off + wd].hex()), r))
                 continue
             stats['derived_complete_same_shape'] += 1
             if v == 'ok':
                 stats['derived_identical'] += 1
-            elif d.get('out') == ba.get('out'):
-                # the overwritten byte is not represented in the decoded object at all (union filler / padding):
-                # not a field value, outside the property
+            elif d.get('out') == ba.get('out') and d.get('dec') == ba.get('dec'):
+                # the overwritten byte is not represented in the decoded object at all (union filler / padding; the decoded
+                # objects are equal): not a field value, outside the property
                 stats.setdefault('derived_ignored_filler_byte', 0)
                 stats['derived_ignored_filler_byte'] += 1
             elif len(mut) > 2 and filler_only(img, bytes.fromhex(d['out']), bytes.fromhex(ba['out']), m, mut):
@@ -1142,6 +1170,14 @@ def monitor_corr(pipe, res, kind, nseq, maxlen):
                         sq += ['w:aa', 'held', 'r:1', 'drop']
                 sq += ['w:bb', 'held']
                 seqs.append(sq)
+    if kind == 'u':
+        # directed: go back in front of what is still held, drop, come forward again - nothing unread may have been discarded
+        for c in (1, 3, 8, 16):
+            for back in (1, 5, c + 2):
+                body = bytes((7 * i + c) % 251 for i in range(20)).hex()
+                seqs.append(['new', 'sdlcs:%d' % c, 'w:' + body, 'r:10', 'drop', 'sk:-%d' % back, 'drop', 'held', 'sk:%d' % back, 'r:10'])
+                seqs.append(['new', 'wc:%d:%s' % (c + 4, body[:2 * (c + 4)]), 'wc:%d:%s' % (c + 4, body[:2 * (c + 4)]), 'r:%d' % (c + 5), 'drop',
+                             'sk:-%d' % min(back, c + 5), 'drop', 'held', 'sk:%d' % min(back, c + 5), 'r:%d' % (c + 3)])
     corpus = os.path.join(VERIF, 'corpus', kind + 'seq.txt')
     if os.path.exists(corpus):
         seqs = [l.strip().split(';') for l in open(corpus) if l.strip() and not l.startswith('#')] + seqs
@@ -1245,6 +1281,8 @@ def flat_oracle_u(ops, ans):
     low = 0            # positions below `low` may have been dropped after having been read
     maxg = 0
     for i, (op, pa) in enumerate(zip(ops, parts)):
+        if op == 'held' and pa.startswith('u held'):
+            continue            # the container list: not an operation of the byte queue
         if op.startswith('probe-') or not pa.startswith('u ok'):
             break
         a = op.split(':')
@@ -1332,6 +1370,43 @@ def check_C16(res):
     runs = monitor_corr(pipe, res, 'q', nseq, 40)
     res.corr['programs'] = 1
     res.corr['rule'] = 'single-threaded operation sequences up to length 40 over {write, read, setFileSize, setBufferSize, abort} with capacities 1..4; an operation the model says blocks is issued on a helper thread and must be observed blocked'
+    # property oracle on the implementation, back-pressure and end of stream: a reference bounded queue written down here (not the
+    # Lean model): a writer is held back exactly while the queue is at its configured capacity (and not aborted), a reader exactly
+    # while the queue is empty, not aborted and the declared number of objects has not been read yet
+    for ops, ans in runs:
+        parts = ans[5:].split(' | ')
+        n, cap, fsz, tg, ab = 0, 2 ** 32 - 1, 2 ** 32 - 1, 0, False
+        for op, pa in zip(ops, parts):
+            a = op.split(':')
+            k = a[0][6:] if a[0].startswith('probe-') else a[0]
+            blocked = pa in ('q block', 'q hang')
+            if k == 'w':
+                should = (not ab) and n >= cap
+                if blocked != should:
+                    res.violation('backpressure', 'write %s with %d queued, capacity %d, abort=%s' % ('was held back' if blocked else 'was admitted', n, cap, ab),
+                                  {'class': 'ObjectQueue', 'failure': 'held-back-below-capacity' if blocked else 'capacity-exceeded', 'sequence': ';'.join(ops)})
+                    break
+                if blocked:
+                    break
+                n += 1
+            elif k == 'r':
+                should = (not ab) and n == 0 and tg < fsz
+                if blocked != should:
+                    res.violation('backpressure', 'read %s with %d queued, %d read, declared size %d, abort=%s' % ('was held back' if blocked else 'returned', n, tg, fsz, ab),
+                                  {'class': 'ObjectQueue', 'failure': 'reader-held-back' if blocked else 'end-of-stream-early', 'sequence': ';'.join(ops)})
+                    break
+                if blocked:
+                    break
+                if n > 0:
+                    n -= 1; tg += 1
+            elif k == 'abort':
+                ab = True
+            elif k == 'sbs':
+                cap = int(a[1])
+            elif k == 'sfs':
+                fsz = int(a[1])
+            if not pa.startswith('q ok') and not pa.startswith('q returned'):
+                break
     # property oracle on the implementation: FIFO, exactly once, null only when empty
     for ops, ans in runs:
         parts = ans[5:].split(' | ')
@@ -2007,6 +2082,40 @@ def decoder_safety(res, pipe, summary, rng):
         res.oblige('T:syncFirst:' + n, syncf.get(n, False), 'the regenerated decoder does not begin with the signature search (progress argument)')
         if not safe[n]:
             bad.append(n)
+    # classes whose decoder could not even be translated (or that left the exact fragment): there is no model to guide the search,
+    # so it runs on the implementation alone: valid images encoded by the implementation, every body byte and every aligned
+    # 16/32-bit word overwritten with boundary values, decoded in a child process under ASan/UBSan
+    sus = [n for n in suspect_classes(summary, pipe.checks()) if n not in bad]
+    if sus:
+        exe = pipe.harness('codec_harness', ['codec_harness.cpp'])
+        g = codecgen.ObjGen(summary, rng)
+        for cn in sus[:6]:
+            if exe is None or cn not in g.cls:
+                continue
+            reqs = [g.line(cn, {})] + [g.line(cn, g.obj(cn, mode)) for mode in ('payload', 'random', 'payload') for _ in range(2)]
+            enc, rc, err = lib.session(exe, ['!' + r for r in reqs], timeout=600)
+            decs = []
+            for a in enc:
+                if not a.startswith('enc halt=none'):
+                    continue
+                img = bytes.fromhex(parse_kv(a).get('out', ''))[:400]
+                for p_ in range(16, len(img)):
+                    for v in (0, 1, 0x3f, 0x40, 0x41, 0x7f, 0x80, 0xff):
+                        b = bytearray(img); b[p_] = v
+                        decs.append('!dec %s %s' % (cn, (bytes(b) + bytes(64)).hex()))
+                for w in (4, 2):
+                    for p_ in range(16, len(img) - w + 1, w):
+                        for v in (3, 255, 257, 65535, 256 ** w - 1):
+                            b = bytearray(img); b[p_:p_ + w] = (v % 256 ** w).to_bytes(w, 'little')
+                            decs.append('!dec %s %s' % (cn, (bytes(b) + bytes(64)).hex()))
+            decs = list(dict.fromkeys(decs))[:12000]
+            imp, rc, err = lib.psession(exe, decs, timeout=1200) if decs else ([], 0, '')
+            res.corr.setdefault('decoder_safety_search', {})[cn] = {'decode_requests_impl_only': len(decs)}
+            for r, b in zip(decs, imp):
+                if b.startswith('crash'):
+                    res.violation('hostile-input', '%s: the decoder crashes on a corrupt image (sanitizer abort in the implementation: %s)' % (cn, b[:80]),
+                                  {'class': cn, 'failure': 'decoder-out-of-bounds', 'request': r.lstrip('!')})
+                    break
     if not bad:
         return
     exe = pipe.harness('codec_harness', ['codec_harness.cpp'])
@@ -2131,6 +2240,8 @@ def monitor_sessions(res, sexe, rng, kinds):
             for n in range(0, 5):
                 sess.append(('qsess cap=%d n=%d' % (cap, n), 'got=%s null=1' % (','.join(str(i + 1) for i in range(n)) or '-'), cap <= 2 and n <= 3))
         sess.append(('qsess cap=2 n=7', 'got=1,2,3,4,5,6,7 null=1', False))
+        for cap, n in ((1, 2), (2, 3), (3, 4)):
+            sess.append(('qsess cap=%d n=%d presize=1' % (cap, n), 'got=%s null=1' % ','.join(str(i + 1) for i in range(n)), n <= 3))
         sess.append(('qsess cap=10 n=14', 'got=%s null=1' % ','.join(str(i + 1) for i in range(14)), False))
     if 'u' in kinds:
         for buf, conts, reads in [(1, [2, 2], [1, 2, 1, 1]), (4, [8, 8, 8], [20, 4, 1]), (4, [3, 5], [8, 1]), (8, [4, 4, 4, 4], [3, 13, 1]), (2, [1, 1, 1], [1, 1, 1, 1]),
@@ -2383,6 +2494,23 @@ def check_sched(res, prop):
                     break
             if not (r and 'outcome=ended' in r[0] and ' n=%d ' % len(sizes) in r[0]):
                 fails.setdefault(('File', 'deadlock-read-session-' + name), ({'kind': 'read', 'reqs': {'native': 'readfile of: ' + rq}}, 'native', (r[0] if r else 'no answer')[:100]))
+        # early close of a read session on a file far larger than the read-ahead: the inflater sleeps on the full stream buffer,
+        # the parser on the full object queue (more than 10 objects unread) when close() / the destructor arrives
+        rq = 'writefile level=0 cs=131072 rp=1 ' + ' '.join(';; AppText %d=%s' % (ti, '62' * 20000) for _ in range(48))
+        w, rc, err = lib.session(fexe, [rq], env=env, timeout=120)
+        if w and w[0].startswith('writefile out='):
+            fhex = w[0].split('out=')[1]
+            for k, end in ((0, 'z c'), (1, 'z c'), (3, 'z d'), (11, 'c'), (11, 'z c'), (40, 'z d')):
+                hq = 'api %s oi %s%s' % (fhex, 'r ' * k, end)
+                for attempt in range(2):
+                    a_, rc, err = lib.session(fexe, [hq], env=env, timeout=120)
+                    res.corr['requests'] += 1
+                    if a_ and 'leak=' in a_[0] and 'threads=0' in a_[0]:
+                        break
+                if not (a_ and 'leak=' in a_[0] and 'threads=0' in a_[0]):
+                    fails.setdefault(('File', 'deadlock-early-close-large-file'), ({'kind': 'read', 'reqs': {'native': 'api <file of 48 AppText of 20000 bytes, level 0> oi %s%s' % ('r ' * k, end)}}, 'native', (a_[0][-160:] if a_ else 'no answer')))
+        else:
+            fails.setdefault(('File', 'deadlock-write-session-48-objects'), ({'kind': 'write', 'reqs': {'native': rq[:200]}}, 'native', (w[0] if w else 'no answer')[:100]))
     for (cl, kind), (sx, lab, det) in fails.items():
         res.violation('schedule', '%s under schedule %s of a %s session (%s)' % (kind, lab, sx['kind'], det[:200]),
                       {'class': cl, 'failure': kind, 'request': sx['reqs'].get(lab, ''), 'schedule': lab})
